@@ -69,10 +69,18 @@ def gen_case(rng, tier, index):
         size = rng.choice([0, 1, 17, m * KIB128 - 1, m * KIB128,
                            m * KIB128 + 1, m * KIB128 + rng.randrange(2, 5000),
                            1024 * 1024 + 7, rng.randrange(0, 400000)])
+        short = rng.random() < 0.7
+        if rng.random() < 0.1:
+            # files of several MiB: exact multiples of power-of-two block
+            # sizes (1..8 MiB) and their neighbours
+            size = (rng.choice([1, 2, 2, 3, 4]) * rng.choice([1, 2, 4, 4, 8])
+                    * 1024 * 1024 + rng.choice([0, 0, 0, -1, 1, KIB128]))
+            size = min(size, 16 * 1024 * 1024)
+            short = False
         return {"kind": "file", "size": size, "algos": algos,
                 "content": rng.choice(["random", "random", "zeros",
                                        "periodic"]),
-                "short": rng.random() < 0.7, "seed": rng.getrandbits(32)}
+                "short": short, "seed": rng.getrandbits(32)}
     hist = dsgen.gen_history(rng, n_sessions=rng.randrange(1, 3),
                              formats=("fb", "npz", "fb", "npz", "tfrec"),
                              hashes=algos, meta_modes=("none",),
@@ -151,6 +159,8 @@ def run_file(case):
         "faults": dict(fs.faults),
         "probes": {"size_multiple_of_buffer": int(n > 0 and n % KIB128 == 0),
                    "larger_than_buffer": int(n > KIB128),
+                   "size_multiple_of_4_MiB_at_least_8_MiB": int(
+                       n >= 8 * 1024 * 1024 and n % (4 * 1024 * 1024) == 0),
                    "empty_file": int(n == 0),
                    "repeated_algorithm": int(len(set(case["algos"])) <
                                              len(case["algos"])),
@@ -221,7 +231,8 @@ def shrink(case):
 def reach(agg):
     need = []
     p, f = agg["probes"], agg["faults"]
-    for name in ("size_multiple_of_buffer", "larger_than_buffer", "empty_file",
+    for name in ("size_multiple_of_buffer", "larger_than_buffer",
+                 "size_multiple_of_4_MiB_at_least_8_MiB", "empty_file",
                  "repeated_algorithm", "all_13_algorithms", "session_family",
                  "metadata_file_larger_than_a_block_non_ascii"):
         if not p.get(name):
